@@ -44,9 +44,9 @@ theorem decA_eq (env : Env) : ∀ f : Nat,
           rcases readLen r1 with ⟨_ | len, r2⟩
           · rfl
           simp only
-          by_cases c3 : len < 0
-          · simp only [if_pos c3]
-          · simp only [if_neg c3]
+          rcases checkLength len r2 with ⟨_ | u, r3⟩
+          · rfl
+          · rfl
         simp only [if_neg c2]
         by_cases c3 : tyCur = tySimpleList
         · simp only [if_pos c3]
@@ -78,8 +78,11 @@ theorem decA_eq (env : Env) : ∀ f : Nat,
         · simp only [if_pos c2]
           rcases readLen r1 with ⟨_ | len, r2⟩
           · rfl
-          · simp only [ihA]
-            cases old <;> rfl
+          · simp only
+            by_cases c3 : len > (n : Int)
+            · simp only [if_pos c3]
+            · simp only [if_neg c3, ihA]
+              cases old <;> rfl
         · simp only [if_neg c2]
       | map k v =>
         rw [Total.decVar_map]
@@ -93,7 +96,10 @@ theorem decA_eq (env : Env) : ∀ f : Nat,
         simp only [if_neg c1]
         rcases readLen r1 with ⟨_ | len, r2⟩
         · rfl
-        · simp only [ihP]
+        · simp only
+          rcases checkLength len r2 with ⟨_ | u, r3⟩
+          · rfl
+          · simp only [ihP]
       | struct name =>
         rw [Total.decVar_struct]
         unfold decVarA Total.structBody
@@ -183,52 +189,41 @@ theorem decA_eq (env : Env) : ∀ f : Nat,
         · rfl
 
 @[simp] theorem Cost.zero_alloc : Cost.zero.alloc = 0 := rfl
-@[simp] theorem Cost.zero_lenOK : Cost.zero.lenOK = true := rfl
 @[simp] theorem Cost.zero_nest : Cost.zero.nest = 0 := rfl
 @[simp] theorem Cost.seq_alloc (a b : Cost) : (Cost.seq a b).alloc = a.alloc + b.alloc := rfl
 @[simp] theorem Cost.seq_nest (a b : Cost) : (Cost.seq a b).nest = max a.nest b.nest := rfl
-theorem Cost.seq_lenOK {a b : Cost} (h : (Cost.seq a b).lenOK = true) : a.lenOK = true ∧ b.lenOK = true := by
-  simpa [Cost.seq] using h
-@[simp] theorem Cost.make_alloc (n m : Nat) (c : Cost) : (Cost.make n m c).alloc = n + c.alloc := rfl
-@[simp] theorem Cost.make_nest (n m : Nat) (c : Cost) : (Cost.make n m c).nest = c.nest + 1 := rfl
-theorem Cost.make_lenOK {n m : Nat} {c : Cost} (h : (Cost.make n m c).lenOK = true) : n ≤ m ∧ c.lenOK = true := by
-  simpa [Cost.make] using h
-@[simp] theorem Cost.flat_alloc (n m : Nat) : (Cost.flat n m).alloc = n := rfl
-@[simp] theorem Cost.flat_nest (n m : Nat) : (Cost.flat n m).nest = 1 := rfl
-theorem Cost.flat_lenOK {n m : Nat} (h : (Cost.flat n m).lenOK = true) : n ≤ m := by
-  simpa [Cost.flat] using h
+@[simp] theorem Cost.make_alloc (n : Nat) (c : Cost) : (Cost.make n c).alloc = n + c.alloc := rfl
+@[simp] theorem Cost.make_nest (n : Nat) (c : Cost) : (Cost.make n c).nest = c.nest + 1 := rfl
+@[simp] theorem Cost.flat_alloc (n : Nat) : (Cost.flat n).alloc = n := rfl
+@[simp] theorem Cost.flat_nest (n : Nat) : (Cost.flat n).nest = 1 := rfl
 
 /-- lift an error bound from an inner start position / nesting to an outer one -/
 theorem err_mono {a rem' rem1 n1 rem n : Nat} (h : a + rem' ≤ rem1 + n1 * rem1) (h1 : rem1 ≤ rem)
     (hn : n1 ≤ n) : a + rem' ≤ rem + n * rem := by
   have := Nat.mul_le_mul hn h1; omega
 
-/-- the allocation statement carried through the induction: under `lenOK`, a successful run
-    allocated no more than it consumed (minus `extra` head bytes it is known to have consumed on
-    top); a failed run at most `nest` times the remaining input more. -/
+/-- the allocation statement carried through the induction: a successful run allocated no more
+    than it consumed (minus `extra` head bytes it is known to have consumed on top); a failed run
+    at most `nest` times the remaining input more. -/
 def AllocOK {α : Type} (extra : Nat) (r : Reader) (x : Res α × Cost) : Prop :=
-  x.2.lenOK = true →
     (∀ v, x.1.1 = .ok v → x.2.alloc + extra + x.1.2.remaining ≤ r.remaining) ∧
     (∀ e, x.1.1 = .error e → x.2.alloc + x.1.2.remaining ≤ r.remaining + x.2.nest * r.remaining)
 
 theorem AllocOK.of_err0 {α : Type} {extra : Nat} {r r' : Reader} {e : Err} (h : r.Le r') :
     AllocOK extra r (((.error e, r'), Cost.zero) : Res α × Cost) := by
-  intro _
   refine ⟨by simp, ?_⟩
   intro _ _; have := h.remaining; simp; omega
 
 theorem AllocOK.of_ok0 {α : Type} {extra : Nat} {r r' : Reader} {a : α}
     (h : extra + r'.remaining ≤ r.remaining) :
     AllocOK extra r (((.ok a, r'), Cost.zero) : Res α × Cost) := by
-  intro _
   refine ⟨?_, by simp⟩
   intro _ _; simp; omega
 
 /-- string allocation: the bytes of the string are part of what the read consumed -/
 theorem strAlloc_bound (ty : Ty) (old : Val) (tag : Nat) (req : Bool) (r : Reader) :
     AllocOK (if req then 1 else 0) r
-      (readScalar ty old tag req r, ⟨strAlloc tag req r (readScalar ty old tag req r), true, 0⟩) := by
-  intro _
+      (readScalar ty old tag req r, ⟨strAlloc tag req r (readScalar ty old tag req r), 0⟩) := by
   have hstep := (readScalar_spec ty old tag req r).1
   constructor
   · intro v hv
@@ -357,13 +352,15 @@ theorem decA_bound (env : Env) : ∀ f : Nat,
                   have hl2 := readLen_ok hd
                   have hlt2 := hl2.remaining
                   simp only
-                  by_cases c3 : len < 0
-                  · simp only [if_pos c3]
-                    exact AllocOK.of_err0 (p1.trans hl2.le)
-                  simp only [if_neg c3]
-                  intro hok
-                  obtain ⟨hn, hcok⟩ := Cost.make_lenOK hok
-                  obtain ⟨b1, b2⟩ := ihE e len.toNat [] r2 hcok
+                  cases hc3 : checkLength len r2 with
+                  | mk res3 r3 =>
+                  cases res3 with
+                  | error er =>
+                    rw [(checkLength_err hc3).1]; exact AllocOK.of_err0 (p1.trans hl2.le)
+                  | ok u =>
+                  obtain ⟨rfl, _, hn⟩ := checkLength_ok hc3
+                  simp only
+                  obtain ⟨b1, b2⟩ := ihE e len.toNat [] r3
                   constructor
                   · intro v hv'
                     have := b1 v hv'
@@ -372,8 +369,8 @@ theorem decA_bound (env : Env) : ∀ f : Nat,
                   · intro e' he'
                     have := b2 e' he'
                     simp only [Cost.make_alloc, Cost.make_nest]
-                    have hm : (decElemsA env f e len.toNat [] r2).2.nest * r2.remaining
-                        ≤ (decElemsA env f e len.toNat [] r2).2.nest * r.remaining :=
+                    have hm : (decElemsA env f e len.toNat [] r3).2.nest * r3.remaining
+                        ≤ (decElemsA env f e len.toNat [] r3).2.nest * r.remaining :=
                       Nat.mul_le_mul (Nat.le_refl _) (by omega)
                     rw [Nat.add_mul]
                     omega
@@ -405,32 +402,46 @@ theorem decA_bound (env : Env) : ∀ f : Nat,
                           · cases res4 with
                             | error er =>
                               simp only [if_pos c5]
-                              intro _; refine ⟨by simp, ?_⟩
+                              refine ⟨by simp, ?_⟩
                               intro _ _; simp; omega
                             | ok bs =>
                               simp only [if_pos c5]
-                              intro _; refine ⟨?_, by simp⟩
-                              intro _ _; simp; split <;> omega
-                          · cases res4 with
-                            | error er =>
-                              simp only [if_neg c5]
-                              intro hok
-                              have hn := Cost.flat_lenOK hok
-                              refine ⟨by simp, ?_⟩
-                              intro _ _
-                              simp only [Cost.flat_alloc, Cost.flat_nest, Nat.one_mul]
-                              omega
-                            | ok bs =>
-                              simp only [if_neg c5]
-                              intro hok
                               refine ⟨?_, by simp⟩
-                              intro _ _
-                              rcases readSlice8_exact hg with ⟨h0, _, _⟩ | ⟨_, e1, e2, _, _⟩
-                              · omega
-                              · simp only [Cost.flat_alloc]
-                                have : r4.remaining + len.toNat = r3.remaining := by
-                                  rw [e2]; unfold Reader.remaining; simp only; omega
-                                split <;> omega
+                              intro _ _; simp; split <;> omega
+                          · simp only [if_neg c5]
+                            cases hc5 : checkLength len r3 with
+                            | mk res5 r5 =>
+                            cases res5 with
+                            | error er5 =>
+                              simp only
+                              cases res4 with
+                              | error er =>
+                                refine ⟨by simp, ?_⟩
+                                intro _ _; simp; omega
+                              | ok bs =>
+                                -- impossible: readSlice8 fails when checkLength fails
+                                exfalso
+                                unfold readSlice8 at hg
+                                rw [if_neg c5, hc5] at hg
+                                simp at hg
+                            | ok u5 =>
+                              obtain ⟨_, _, hn⟩ := checkLength_ok hc5
+                              simp only
+                              cases res4 with
+                              | error er =>
+                                refine ⟨by simp, ?_⟩
+                                intro _ _
+                                simp only [Cost.flat_alloc, Cost.flat_nest, Nat.one_mul]
+                                omega
+                              | ok bs =>
+                                refine ⟨?_, by simp⟩
+                                intro _ _
+                                rcases readSlice8_exact hg with ⟨h0, _, _⟩ | ⟨_, e1, e2, _, _⟩
+                                · omega
+                                · simp only [Cost.flat_alloc]
+                                  have : r4.remaining + len.toNat = r3.remaining := by
+                                    rw [e2]; unfold Reader.remaining; simp only; omega
+                                  split <;> omega
               · simp only [if_neg c4]; exact AllocOK.of_err0 p1
             · simp only [if_neg c3]; exact AllocOK.of_err0 p1
       | arr n e =>
@@ -463,16 +474,18 @@ theorem decA_bound (env : Env) : ∀ f : Nat,
                   have hl2 := readLen_ok hd
                   have hlt2 := hl2.remaining
                   simp only
-                  intro hok
-                  obtain ⟨b1, b2⟩ := ihA e n 0 len _ r2 hok
+                  by_cases c3 : len > (n : Int)
+                  · simp only [if_pos c3]; exact AllocOK.of_err0 (p1.trans hl2.le)
+                  simp only [if_neg c3]
+                  have hA := fun cur => ihA e n 0 len cur r2
                   constructor
                   · intro v hv'
-                    have := b1 v hv'
+                    have := (hA _).1 v hv'
                     by_cases hr : req = true
                     · simp only [if_pos hr]; omega
                     · simp only [if_neg hr]; omega
                   · intro e' he'
-                    have := b2 e' he'
+                    have := (hA _).2 e' he'
                     exact err_mono this (by omega) (Nat.le_refl _)
             · simp only [if_neg c2]; exact AllocOK.of_err0 p1
       | map k v =>
@@ -502,8 +515,15 @@ theorem decA_bound (env : Env) : ∀ f : Nat,
                 have hl2 := readLen_ok hd
                 have hlt2 := hl2.remaining
                 simp only
-                intro hok
-                obtain ⟨b1, b2⟩ := ihP k v len [] r2 hok
+                cases hc3 : checkLength len r2 with
+                | mk res3 r3 =>
+                cases res3 with
+                | error er =>
+                  rw [(checkLength_err hc3).1]; exact AllocOK.of_err0 (p1.trans hl2.le)
+                | ok u =>
+                obtain ⟨rfl, _, _⟩ := checkLength_ok hc3
+                simp only
+                obtain ⟨b1, b2⟩ := ihP k v len [] r3
                 constructor
                 · intro v hv'
                   have := b1 v hv'
@@ -545,8 +565,7 @@ theorem decA_bound (env : Env) : ∀ f : Nat,
                   cases res2 with
                   | error er =>
                     simp only
-                    intro hok
-                    obtain ⟨_, b2⟩ := hM hok
+                    obtain ⟨_, b2⟩ := hM
                     refine ⟨by simp, ?_⟩
                     intro e' _
                     have := b2 er rfl
@@ -559,8 +578,7 @@ theorem decA_bound (env : Env) : ∀ f : Nat,
                       cases res3 with
                       | error er =>
                         simp only
-                        intro hok
-                        obtain ⟨b1, _⟩ := hM hok
+                        obtain ⟨b1, _⟩ := hM
                         have := b1 vs rfl
                         refine ⟨by simp, ?_⟩
                         intro _ _
@@ -568,8 +586,7 @@ theorem decA_bound (env : Env) : ∀ f : Nat,
                         omega
                       | ok u =>
                         simp only
-                        intro hok
-                        obtain ⟨b1, _⟩ := hM hok
+                        obtain ⟨b1, _⟩ := hM
                         have := b1 vs rfl
                         refine ⟨?_, by simp⟩
                         intro _ _
@@ -596,14 +613,11 @@ theorem decA_bound (env : Env) : ∀ f : Nat,
           cases res with
           | error er =>
             simp only
-            intro hok
-            exact ⟨by simp, fun e' _ => (hV hok).2 er rfl⟩
+            exact ⟨by simp, fun e' _ => hV.2 er rfl⟩
           | ok v =>
             simp only
-            intro hok
-            obtain ⟨okx, oky⟩ := Cost.seq_lenOK hok
-            have b1 := (hV okx).1 v rfl
-            obtain ⟨c1, c2⟩ := ihE e n' (v :: acc) r1 oky
+            have b1 := hV.1 v rfl
+            obtain ⟨c1, c2⟩ := ihE e n' (v :: acc) r1
             simp only [if_true] at b1
             constructor
             · intro v' hv'
@@ -621,7 +635,6 @@ theorem decA_bound (env : Env) : ∀ f : Nat,
       simp only [if_neg c1]
       by_cases c2 : i ≥ n
       · simp only [if_pos c2]
-        intro _
         have := (arrOverflow_le e r).remaining
         constructor
         · intro v hv; simp only [Cost.zero_alloc]; omega
@@ -636,14 +649,11 @@ theorem decA_bound (env : Env) : ∀ f : Nat,
         cases res with
         | error er =>
           simp only
-          intro hok
-          exact ⟨by simp, fun e' _ => (hV hok).2 er rfl⟩
+          exact ⟨by simp, fun e' _ => hV.2 er rfl⟩
         | ok v =>
           simp only
-          intro hok
-          obtain ⟨okx, oky⟩ := Cost.seq_lenOK hok
-          have b1 := (hV okx).1 v rfl
-          obtain ⟨c1', c2'⟩ := ihA e n (i+1) len (listSet cur i v) r1 oky
+          have b1 := hV.1 v rfl
+          obtain ⟨c1', c2'⟩ := ihA e n (i+1) len (listSet cur i v) r1
           simp only [if_true] at b1
           constructor
           · intro v' hv'
@@ -668,8 +678,7 @@ theorem decA_bound (env : Env) : ∀ f : Nat,
         cases res with
         | error er =>
           simp only
-          intro hok
-          exact ⟨by simp, fun e' _ => (hV hok).2 er rfl⟩
+          exact ⟨by simp, fun e' _ => hV.2 er rfl⟩
         | ok a =>
           simp only
           have hV2 := ihV 1 true v (zeroOf env v) r1
@@ -681,10 +690,8 @@ theorem decA_bound (env : Env) : ∀ f : Nat,
             cases res2 with
             | error er =>
               simp only
-              intro hok
-              obtain ⟨okx, oky⟩ := Cost.seq_lenOK hok
-              have b1 := (hV okx).1 a rfl
-              have b2 := (hV2 oky).2 er rfl
+              have b1 := hV.1 a rfl
+              have b2 := hV2.2 er rfl
               simp only [if_true] at b1
               refine ⟨by simp, ?_⟩
               intro e' _
@@ -692,14 +699,10 @@ theorem decA_bound (env : Env) : ∀ f : Nat,
               exact AllocOK.seq_err (by omega) b2 (by simpa using hL)
             | ok b =>
               simp only
-              intro hok
-              obtain ⟨okxy, okz'⟩ := Cost.seq_lenOK hok
-              obtain ⟨okx, oky⟩ := Cost.seq_lenOK okxy
-              obtain ⟨_, okz⟩ := Cost.seq_lenOK okz'
-              have b1 := (hV okx).1 a rfl
-              have b2 := (hV2 oky).1 b rfl
+              have b1 := hV.1 a rfl
+              have b2 := hV2.1 b rfl
               simp only [if_true] at b1 b2
-              obtain ⟨c1', c2'⟩ := ihP k v (len - 1) (mapInsert acc a b keyEq) r2 okz
+              obtain ⟨c1', c2'⟩ := ihP k v (len - 1) (mapInsert acc a b keyEq) r2
               constructor
               · intro v' hv'
                 have := c1' v' hv'
@@ -734,8 +737,7 @@ theorem decA_bound (env : Env) : ∀ f : Nat,
           cases res with
           | error er =>
             simp only
-            intro hok
-            exact ⟨by simp, fun e' _ => (hV hok).2 er rfl⟩
+            exact ⟨by simp, fun e' _ => hV.2 er rfl⟩
           | ok v =>
             simp only
             have hM := ihM fs' os r1
@@ -746,20 +748,16 @@ theorem decA_bound (env : Env) : ∀ f : Nat,
               cases res2 with
               | error er =>
                 simp only
-                intro hok
-                obtain ⟨okx, oky⟩ := Cost.seq_lenOK hok
-                have b1 := (hV okx).1 v rfl
-                have b2 := (hM oky).2 er rfl
+                have b1 := hV.1 v rfl
+                have b2 := hM.2 er rfl
                 refine ⟨by simp, ?_⟩
                 intro e' _
                 simp only [Cost.seq_alloc, Cost.seq_nest] at b2 ⊢
                 exact AllocOK.seq_err (by simp only at b1; omega) b2 (by simpa using hL)
               | ok vs =>
                 simp only
-                intro hok
-                obtain ⟨okx, oky⟩ := Cost.seq_lenOK hok
-                have b1 := (hV okx).1 v rfl
-                have b2 := (hM oky).1 vs rfl
+                have b1 := hV.1 v rfl
+                have b2 := hM.1 vs rfl
                 refine ⟨?_, by simp⟩
                 intro _ _
                 simp only [Cost.seq_alloc] at b1 b2 ⊢
@@ -798,12 +796,10 @@ theorem decStructA_bound (env : Env) (name : String) (old : Val) (r : Reader) :
         cases res with
         | error er =>
           simp only
-          intro hok
-          exact ⟨by simp, fun e' _ => (hM hok).2 er rfl⟩
+          exact ⟨by simp, fun e' _ => hM.2 er rfl⟩
         | ok vs =>
           simp only
-          intro hok
-          exact ⟨fun _ _ => (hM hok).1 vs rfl, by simp⟩
+          exact ⟨fun _ _ => hM.1 vs rfl, by simp⟩
     | _ => simp only; exact AllocOK.of_err0 (Reader.Le.refl _)
 
 end Tars
